@@ -194,6 +194,8 @@ for ax in [None, 0, -1]:
 T('A.sum()', 'A', lambda r: r.sum(), tags=('core', 'poly'))
 T('prod(V)', 'V', algopy.prod, tags=('core', 'poly'))
 T('trace(M)', 'M', algopy.trace, tags=('core', 'poly'))
+T('trace(wide)', 'M', lambda r: algopy.trace(r[:2]), tags=('core', 'poly'))
+T('trace(tall)', 'M', lambda r: algopy.trace(r[:, :2]), tags=('core', 'poly'))
 
 # ---------------------------------------------------------------- dot / outer
 for a, b in ['VV', 'MV', 'VM', 'MM']:
